@@ -12,8 +12,8 @@ import (
 
 func init() {
 	register(&propDef{
-		id:  "C08",
-		run: runC08,
+		id:          "C08",
+		run:         runC08,
 		explanation: "Static analysis of error handling on the paths that decide durability and answers: (1) error discipline — across all engine packages every call whose error result is not used at all is in a reviewed list (teardown Close of read handles etc.); any new dropped error is reported; (2) a failed log write is not applied or acknowledged, a failed manifest write leaves the version unchanged and abandons the spawned version id; (3) a failed journal write consumes its sequence numbers (the record may already be in the file) before the next group is logged; (4) the journal writer latches write errors; (5) checksum gates: with verification on, table block bytes are used only on the equal edge of the CRC comparison, meta/index/filter blocks are always verified, the flag comes from StrictBlockChecksum which is in the default strict set; (6) read errors of a source iterator surface as the iterator's error instead of a silent end-of-data; (7) partial outputs are reverted. Necessary conditions only: which answers are returned under which fault sequence is NOT decided.",
 		notCovered:  "fault-sequence enumeration; the 'wholly applied or wholly absent' fate of a failed write at runtime; errors that are used but mishandled",
 		assumptions: []string{"reviewed dropped-error list in rules_c08.go", "CRC-32C detects the corruption it is given"},
@@ -22,36 +22,36 @@ func init() {
 
 // reviewed calls whose error result is intentionally unused: "caller|callee" → reason
 var reviewedDropped = map[string]string{
-	"(*leveldb.DB).Close|(*leveldb/journal.Writer).Close":                  "teardown: every acknowledged record was flushed (and synced if requested) by writeJournal",
-	"(*leveldb.DB).Close|iface:leveldb/storage.Writer.Close":               "teardown of the journal file handle",
-	"(*leveldb.DB).GetProperty|fmt.Sscanf":                                 "property name parsing; the count n is checked",
-	"(*leveldb.DB).recoverJournalRO|iface:leveldb/storage.Reader.Close":    "closing a journal opened for reading",
-	"(*leveldb.DB).recoverJournal|iface:leveldb/storage.Reader.Close":      "closing a journal opened for reading",
-	"(*leveldb.DB).recoverJournal|(*leveldb/journal.Reader).Reset":         "Reset only reports the previous journal's latched read error, which was already handled",
-	"(*leveldb.DB).recoverJournal|(*leveldb/journal.Writer).Close":         "error path teardown of the freshly created journal",
-	"(*leveldb.DB).recoverJournal|iface:leveldb/storage.Writer.Close":      "error path teardown of the freshly created journal",
-	"(*leveldb.Transaction).Commit|(*leveldb.DB).waitCompaction":           "documented: the transaction is already committed; back-pressure wait only",
-	"(*leveldb.session).close|(*leveldb/journal.Writer).Close":             "teardown: every committed edit was flushed and synced by flushManifest/newManifest",
-	"(*leveldb.session).close|iface:leveldb/storage.Writer.Close":          "teardown of the manifest file handle",
-	"(*leveldb.session).newManifest$1|(*leveldb/journal.Writer).Close":     "the superseded manifest writer (its content is already replaced by the new snapshot)",
-	"(*leveldb.session).newManifest$1|iface:leveldb/storage.Writer.Close":  "superseded / failed manifest file handle",
-	"(*leveldb.session).recover$1|iface:leveldb/storage.Storage.List":      "best-effort probe to turn a missing CURRENT into a corruption error when other DB files exist",
-	"(*leveldb.session).recover|iface:leveldb/storage.Reader.Close":        "closing the manifest opened for reading",
-	"(*leveldb.tOps).open$1|iface:leveldb/storage.Reader.Close":            "closing a table file whose reader could not be created (the NewReader error is returned)",
-	"(*leveldb/storage.fileStorage).Close|(*os.File).Close":                "closing the LOG file",
-	"(*leveldb/storage.fileStorage).doLog|(*os.File).Close":                "LOG rotation",
-	"(*leveldb/storage.fileStorage).doLog|(*os.File).Write":                "diagnostic log line",
-	"(*leveldb/table.Reader).Release|iface:io.Closer.Close":                "closing a table file opened for reading",
-	"leveldb.OpenFile|iface:leveldb/storage.Storage.Close":                 "closing the storage after Open already failed (that error is returned)",
-	"leveldb.RecoverFile|iface:leveldb/storage.Storage.Close":              "closing the storage after Recover already failed",
-	"leveldb.openDB|(*leveldb/journal.Writer).Close":                       "error path teardown after checkAndCleanFiles failed",
-	"leveldb.openDB|iface:leveldb/storage.Writer.Close":                    "error path teardown after checkAndCleanFiles failed",
-	"leveldb.recoverTable$2$1|iface:leveldb/storage.Reader.Close":          "closing a table opened for reading during Recover",
-	"leveldb.recoverTable$2|iface:leveldb/storage.Reader.Close":            "closing a table opened for reading during Recover",
-	"leveldb/storage.OpenFile|(*os.File).Close":                            "closing the LOG file on an error path",
-	"leveldb/storage.fsParseName|fmt.Sscanf":                               "file name parsing; the count n is checked",
-	"leveldb/storage.newFileLock|(*os.File).Close":                         "closing the lock file after flock failed (that error is returned)",
-	"leveldb/storage.syncDir|(*os.File).Close":                             "closing the directory handle after fsync",
+	"(*leveldb.DB).Close|(*leveldb/journal.Writer).Close":                 "teardown: every acknowledged record was flushed (and synced if requested) by writeJournal",
+	"(*leveldb.DB).Close|iface:leveldb/storage.Writer.Close":              "teardown of the journal file handle",
+	"(*leveldb.DB).GetProperty|fmt.Sscanf":                                "property name parsing; the count n is checked",
+	"(*leveldb.DB).recoverJournalRO|iface:leveldb/storage.Reader.Close":   "closing a journal opened for reading",
+	"(*leveldb.DB).recoverJournal|iface:leveldb/storage.Reader.Close":     "closing a journal opened for reading",
+	"(*leveldb.DB).recoverJournal|(*leveldb/journal.Reader).Reset":        "Reset only reports the previous journal's latched read error, which was already handled",
+	"(*leveldb.DB).recoverJournal|(*leveldb/journal.Writer).Close":        "error path teardown of the freshly created journal",
+	"(*leveldb.DB).recoverJournal|iface:leveldb/storage.Writer.Close":     "error path teardown of the freshly created journal",
+	"(*leveldb.Transaction).Commit|(*leveldb.DB).waitCompaction":          "documented: the transaction is already committed; back-pressure wait only",
+	"(*leveldb.session).close|(*leveldb/journal.Writer).Close":            "teardown: every committed edit was flushed and synced by flushManifest/newManifest",
+	"(*leveldb.session).close|iface:leveldb/storage.Writer.Close":         "teardown of the manifest file handle",
+	"(*leveldb.session).newManifest$1|(*leveldb/journal.Writer).Close":    "the superseded manifest writer (its content is already replaced by the new snapshot)",
+	"(*leveldb.session).newManifest$1|iface:leveldb/storage.Writer.Close": "superseded / failed manifest file handle",
+	"(*leveldb.session).recover$1|iface:leveldb/storage.Storage.List":     "best-effort probe to turn a missing CURRENT into a corruption error when other DB files exist",
+	"(*leveldb.session).recover|iface:leveldb/storage.Reader.Close":       "closing the manifest opened for reading",
+	"(*leveldb.tOps).open$1|iface:leveldb/storage.Reader.Close":           "closing a table file whose reader could not be created (the NewReader error is returned)",
+	"(*leveldb/storage.fileStorage).Close|(*os.File).Close":               "closing the LOG file",
+	"(*leveldb/storage.fileStorage).doLog|(*os.File).Close":               "LOG rotation",
+	"(*leveldb/storage.fileStorage).doLog|(*os.File).Write":               "diagnostic log line",
+	"(*leveldb/table.Reader).Release|iface:io.Closer.Close":               "closing a table file opened for reading",
+	"leveldb.OpenFile|iface:leveldb/storage.Storage.Close":                "closing the storage after Open already failed (that error is returned)",
+	"leveldb.RecoverFile|iface:leveldb/storage.Storage.Close":             "closing the storage after Recover already failed",
+	"leveldb.openDB|(*leveldb/journal.Writer).Close":                      "error path teardown after checkAndCleanFiles failed",
+	"leveldb.openDB|iface:leveldb/storage.Writer.Close":                   "error path teardown after checkAndCleanFiles failed",
+	"leveldb.recoverTable$2$1|iface:leveldb/storage.Reader.Close":         "closing a table opened for reading during Recover",
+	"leveldb.recoverTable$2|iface:leveldb/storage.Reader.Close":           "closing a table opened for reading during Recover",
+	"leveldb/storage.OpenFile|(*os.File).Close":                           "closing the LOG file on an error path",
+	"leveldb/storage.fsParseName|fmt.Sscanf":                              "file name parsing; the count n is checked",
+	"leveldb/storage.newFileLock|(*os.File).Close":                        "closing the lock file after flock failed (that error is returned)",
+	"leveldb/storage.syncDir|(*os.File).Close":                            "closing the directory handle after fsync",
 }
 
 func runC08(p *Prog, r *Report) {
